@@ -61,6 +61,7 @@ type event struct {
 	HasR2C    bool     `json:"hasr2c"`
 	HasC2R    bool     `json:"hasc2r"`
 	API       string   `json:"api,omitempty"`
+	Copy      bool     `json:"copy"`
 	InLvl     int      `json:"inlvl"`
 	Batch     int      `json:"batch"`
 	LogSlots  int      `json:"logslots"`
@@ -115,7 +116,7 @@ func variants() []variant {
 	mr := func(logN int) *int { return ip(bootstrapping.DefaultLogMessageRatio + 16 - logN) }
 	return []variant{
 		{name: "default", res: deep, btp: bootstrapping.ParametersLiteral{LogN: ip(10), LogMessageRatio: mr(10)}, inLevels: []int{0, 1, 2}, batches: []int{1}, stages: true, quick: true},
-		{name: "ringswitch", res: n9, btp: bootstrapping.ParametersLiteral{LogN: ip(10), LogMessageRatio: mr(9)}, inLevels: []int{0, 1}, batches: []int{1, 2}, quick: true},
+		{name: "ringswitch", res: n9, btp: bootstrapping.ParametersLiteral{LogN: ip(10), LogMessageRatio: mr(9)}, inLevels: []int{0, 1}, batches: []int{1, 2}, slotOffs: []int{0, 1}, quick: true},
 		{name: "ci", res: ci, btp: bootstrapping.ParametersLiteral{LogN: ip(10), LogMessageRatio: mr(9)}, inLevels: []int{0}, batches: []int{1}, quick: true},
 		{name: "packed", res: base, btp: bootstrapping.ParametersLiteral{LogN: ip(10), LogSlots: ip(8), LogMessageRatio: mr(10)}, inLevels: []int{0}, batches: []int{1, 3, 4}, slotOffs: []int{1, 2, 3}},
 		{name: "packed-ringswitch", res: n7, btp: bootstrapping.ParametersLiteral{LogN: ip(10), LogSlots: ip(8), LogMessageRatio: mr(7)}, inLevels: []int{0}, batches: []int{2, 4}, slotOffs: []int{0, 1}},
@@ -323,6 +324,12 @@ func runVariant(w *tr.Writer, prog *int, v variant) {
 			for _, batch := range v.batches {
 				e := base
 				e.Ev, e.InLvl, e.Batch, e.LogSlots = "boot", lvl, batch, logSlots
+				// every other configuration runs on a ShallowCopy of the evaluator (one evaluator per goroutine in deployments)
+				eval := eval
+				if (batch > 1 && lvl == 0) || (batch == 1 && (lvl+so)%2 == 1) {
+					eval = eval.ShallowCopy()
+					e.Copy = true
+				}
 				if pe.CI {
 					e.API = "EvaluateConjugateInvariant"
 					want := mkValues(logSlots, 0)
